@@ -172,7 +172,8 @@ class CallGen(gen_core.Gen):
         elif r.random() < 0.3:
             stmts.append(Return(self.expr(inner, self.any_kind(), 2)))
         else:
-            stmts.append(self.expr(inner, self.any_kind(), 2))
+            t = self.tail(inner)
+            stmts += t["xs"] if t["k"] == "block" else [t]
         body = Block(stmts)
         free = ids_read(body)
         for d in defaults:
